@@ -33,6 +33,7 @@ fn placements(wc: usize, wr: usize, full: bool) -> Vec<(Recv, (usize, usize), Wi
         v.push((Recv::ThinView, (wc + 3, wr + 1), ((2, 0), (2 + wc, wr))));
         v.push((Recv::Nested, (wc + 3, wr + 3), ((2, 1), (2 + wc, 1 + wr))));
         v.push((Recv::Nested3, (wc + 4, wr + 4), ((2, 2), (2 + wc, 2 + wr))));
+        v.push((Recv::DirectLong, (wc, wr + 2), ((0, 0), (wc, wr))));
         if full {
             // touching edges
             v.push((Recv::View, (wc + 1, wr + 1), ((0, 0), (wc, wr))));
@@ -74,6 +75,7 @@ fn big_placements(wc: usize, wr: usize) -> Vec<(Recv, (usize, usize), Win)> {
         (Recv::View, (wc + 3, wr + 2), ((2, 1), (2 + wc, 1 + wr))),
         (Recv::ThinOwned, (wc, wr), full_win(wc, wr)),
         (Recv::Nested, (wc + 2, wr + 2), ((1, 1), (1 + wc, 1 + wr))),
+        (Recv::DirectLong, (wc, wr + 1), ((0, 0), (wc, wr))),
     ]
 }
 
@@ -545,7 +547,10 @@ pub fn run_c04(ctx: &mut Ctx) {
             if wc == 0 || wr == 0 || (wc == pc && wr == pr) {
                 continue; // need a proper, non-empty sub-rectangle
             }
-            for recv in [Recv::View, Recv::Nested, Recv::Nested3, Recv::ThinView] {
+            for recv in [Recv::View, Recv::Nested, Recv::Nested3, Recv::ThinView, Recv::DirectLong] {
+                if recv == Recv::DirectLong && !(win.0 == (0, 0) && (win.1).0 == pc) {
+                    continue;
+                }
                 if !ctx.case(|| format!("C04 recv={:?} parent={}x{} win={:?}", recv, pc, pr, win)) {
                     if ctx.done() {
                         return;
@@ -555,7 +560,7 @@ pub fn run_c04(ctx: &mut Ctx) {
                 let mut rng = Rng::from_parts(ctx.seed, ctx.cur_idx, 4);
                 let ops = c04_ops(wc, wr, &mut rng);
                 let keys = |c: usize, r: usize| ((c * 3 + r * 5 + (c * r) % 3) % 4) as u32;
-                run_ops_both(ctx, "C04", (pc, pr), win, recv, &ops, &keys, recv != Recv::ThinView, true, 1);
+                run_ops_both(ctx, "C04", (pc, pr), win, recv, &ops, &keys, !matches!(recv, Recv::ThinView | Recv::DirectLong), true, 1);
             }
         }
     }
